@@ -1,7 +1,8 @@
 """translate/c05.py — reads src/mxlpy/label_map.py and writes Generated/C05Facts.lean.
 
 Every function the Lean model `Model/C05.lean` mirrors must have EXACTLY the statement shapes listed in
-TEMPLATES below (compared after `ast.unparse`, docstrings removed); the holes «name» of a template are the
+TEMPLATES below (compared after `ast.unparse`, docstrings removed, names of locals normalised — renaming a
+local variable is not a change of shape); the holes «name» of a template are the
 facts that are regenerated on every run: the name-mangling separators, the label alphabet and its order in
 `it.product`, the character external positions get, the default label count, the suffix of the totals, the
 comparison operators of the length checks, whether rate arguments are replaced per occurrence.  Decorator
@@ -28,6 +29,38 @@ def body_text(fn: ast.FunctionDef) -> str:
     body = [s for s in fn.body
             if not (isinstance(s, ast.Expr) and isinstance(s.value, ast.Constant) and isinstance(s.value.value, str))]
     return "\n".join(ast.unparse(s) for s in body)
+
+
+def canon_locals(text: str) -> str:
+    """`text` (a statement list) with every name that is bound in it (assignment, loop / comprehension target,
+    walrus) renamed to `_v<k>`, k = order of first binding: the names of locals are not part of a shape, so
+    renaming a local in the source is not a change of shape.  Parameters that are only read, attributes, keyword
+    names and called functions keep their names."""
+    tree = ast.parse(text)
+    order: list[str] = []
+
+    class Collect(ast.NodeVisitor):
+        def visit_Name(self, n: ast.Name) -> None:
+            if isinstance(n.ctx, (ast.Store, ast.Del)) and n.id not in order and not n.id.startswith("__HOLE_"):
+                order.append(n.id)
+
+    Collect().visit(tree)
+    ren = {n: f"_v{i}" for i, n in enumerate(order)}
+
+    class Rename(ast.NodeTransformer):
+        def visit_Name(self, n: ast.Name) -> ast.Name:
+            if n.id in ren:
+                n.id = ren[n.id]
+            return n
+
+    Rename().visit(tree)
+    return ast.unparse(tree)
+
+
+def canon_template(template: str) -> str:
+    """the template with its locals renamed the same way (holes survive as identifiers)"""
+    t = canon_locals(HOLE.sub(lambda m: f"__HOLE_{m.group(1)}__", template))
+    return re.sub(r"__HOLE_(\w+?)__", lambda m: f"«{m.group(1)}»", t)
 
 
 def match_template(name: str, template: str, text: str, facts: dict) -> bool:
@@ -78,9 +111,9 @@ def check_functions(fns: dict[str, ast.FunctionDef], templates: dict, facts: dic
             raise Unsupported(f"{where}{name} is decorated with {[ast.unparse(d) for d in fn.decorator_list]}")
         if ast.unparse(fn.args) != sig:
             raise Unsupported(f"{where}{name} signature: {ast.unparse(fn.args)}")
-        text = body_text(fn)
+        text = canon_locals(body_text(fn))
         for i, t in enumerate(variants):
-            if match_template(where + name, t, text, facts):
+            if match_template(where + name, canon_template(t), text, facts):
                 variant[name] = i
                 break
         else:
@@ -147,9 +180,12 @@ HELPERS = {
         "    cnt += labels_per_compound[i]\nreturn split_labels"]),
     "_map_substrates_to_products": ("rate_suffix: str, labelmap: list[int]", [
         "return ''.join([rate_suffix[i] for i in labelmap])"]),
-    "_unpack_stoichiometries": ("stoichiometries: Mapping[str, int]", [
-        "substrates = []\nproducts = []\nfor k, v in stoichiometries.items():\n    if v < 0:\n"
-        "        substrates.extend([k] * -v)\n    else:\n        products.extend([k] * v)\n"
+    "_unpack_stoichiometries": ("stoichiometries: Mapping[str, float]", [
+        # after "fix: LabelMapper accepts whole-number float coefficients ...": int() first, fractional refused
+        "substrates = []\nproducts = []\nfor k, v in stoichiometries.items():\n    n = int(v)\n    if n != v:\n"
+        "        msg = f'Stoichiometric coefficient of {k} must be a whole number, got {v}'\n"
+        "        raise ValueError(msg)\n    if n < 0:\n"
+        "        substrates.extend([k] * -n)\n    else:\n        products.extend([k] * n)\n"
         "return (substrates, products)"]),
     "_get_labels_per_variable": ("label_variables: dict[str, int], compounds: list[str]", [
         "return [label_variables.get(compound, 0) for compound in compounds]"]),
